@@ -34,7 +34,7 @@ def hostile_values(f, quick):
     out = []
     if f.kind == "flag":
         w = f.bits
-        out += [("flag_too_wide", 1 << w), ("flag_all_ones_plus", (1 << (w + 1)) - 1), ("negative", -1), ("flag_max", (1 << w) - 1),
+        out += [("flag_too_wide", 1 << w), ("flag_all_ones_plus", (1 << (w + 1)) - 1), ("negative", -1), ("flag_max", (1 << w) - 1), ("int_10^5000", 10 ** 5000),
                 ("float", 0.5), ("str", "1"), ("none", None), ("bool", True), ("bytes", b"\x01"), ("huge", 1 << 64)]
         if not quick:
             out += [("list", [1]), ("nan", float("nan")), ("object", Obj()), ("bool", False)]
@@ -45,7 +45,7 @@ def hostile_values(f, quick):
     if t != "CH" and k in "UEIL":
         lo, hi = L.int_range(t)
         out += [("max_plus_1", hi + 1), ("min_minus_1", lo - 1), ("max", hi), ("min", lo)]
-    out += [("negative", -1), ("int_2^8", 1 << 8), ("int_2^32", 1 << 32), ("int_2^64", 1 << 64),
+    out += [("negative", -1), ("int_2^8", 1 << 8), ("int_2^32", 1 << 32), ("int_2^64", 1 << 64), ("int_10^5000", 10 ** 5000), ("int_-10^5000", -(10 ** 5000)),
             ("float_half", 0.5), ("nan", float("nan")), ("inf", float("inf")), ("float_1e308", 1e308),
             ("str_empty", ""), ("str_w", "a" * n), ("str_w+1", "a" * (n + 1)),
             ("bytes_empty", b""), ("bytes_w-1", bytes(max(n - 1, 0))), ("bytes_w", b"\x41" * n), ("bytes_w+1", bytes(n + 1)),
@@ -83,13 +83,13 @@ def judge(e, base_kw, hostile, pbf, site):
     except REFUSAL:
         return "refused", []
     except Exception as ex:  # noqa: BLE001
-        return "viol", [(f"foreign_exception|{type(ex).__name__}|{site}", f"{e.label} {hostile!r:.80}: {ex}")]
+        return "viol", [(f"foreign_exception|{type(ex).__name__}|{site}", f"{e.label} {_show(hostile)!r:.80}: {ex}")]
     if unfit is not None:
-        return "viol", [(f"unfit_value_encoded|{site}", f"{e.label} {hostile!r:.80} -> {got.hex()[:64]} (reference: {unfit})")]
+        return "viol", [(f"unfit_value_encoded|{site}", f"{e.label} {_show(hostile)!r:.80} -> {got.hex()[:64]} (reference: {unfit})")]
     if got == want:
         return "encoded", []
     if len(got) != len(want):
-        return "viol", [(f"payload_length_wrong|{site}", f"{e.label} {hostile!r:.80}: {len(got)} bytes, definition implies {len(want)}")]
+        return "viol", [(f"payload_length_wrong|{site}", f"{e.label} {_show(hostile)!r:.80}: {len(got)} bytes, definition implies {len(want)}")]
     # allow +-1 unit on the hostile scaled fields only
     for f in fields:
         a, b = got[f.off : f.off + f.size], want[f.off : f.off + f.size]
@@ -98,7 +98,7 @@ def judge(e, base_kw, hostile, pbf, site):
             va, vb = int.from_bytes(a, "little") & mask, int.from_bytes(b, "little") & mask
             if va != vb:
                 who = "hostile_field" if f.name in hostile else "other_field"
-                return "viol", [(f"{who}_mis_encoded|{site}", f"{e.label} {hostile!r:.80}: flag {f.name} got {va >> f.bitoff} want {vb >> f.bitoff}")]
+                return "viol", [(f"{who}_mis_encoded|{site}", f"{e.label} {_show(hostile)!r:.80}: flag {f.name} got {va >> f.bitoff} want {vb >> f.bitoff}")]
             continue
         if a == b:
             continue
@@ -107,7 +107,7 @@ def judge(e, base_kw, hostile, pbf, site):
             if abs(int.from_bytes(a, "little", signed=signed) - int.from_bytes(b, "little", signed=signed)) <= 1:
                 continue
         who = "hostile_field" if f.name in hostile else "other_field"
-        return "viol", [(f"{who}_mis_encoded|{site}", f"{e.label} {hostile!r:.80}: field {f.name} got {a.hex()} want {b.hex()}")]
+        return "viol", [(f"{who}_mis_encoded|{site}", f"{e.label} {_show(hostile)!r:.80}: field {f.name} got {a.hex()} want {b.hex()}")]
     return "encoded", []
 
 
@@ -172,7 +172,14 @@ def run_entry(e, quick, acc):
     acc.states.add(e.label)
 
 
+def _show(h):
+    """repr of the hostile values that cannot itself fail (ints beyond the str-digit limit)."""
+    return {k: (f"<int of {v.bit_length()} bits>" if isinstance(v, int) and not isinstance(v, bool) and v.bit_length() > 4000 else v) for k, v in h.items()}
+
+
 def _j(v):
+    if isinstance(v, int) and not isinstance(v, bool) and v.bit_length() > 4000:
+        return {"hexint": hex(v)}
     if isinstance(v, bytes):
         return {"b": v.hex()}
     if isinstance(v, float) and (math.isnan(v) or math.isinf(v)):
@@ -186,6 +193,8 @@ def _j(v):
 
 def _unj(v):
     if isinstance(v, dict):
+        if "hexint" in v:
+            return int(v["hexint"], 16)
         if "b" in v:
             return bytes.fromhex(v["b"])
         if "f" in v:
